@@ -13,8 +13,13 @@ from props import common_match
 
 warnings.simplefilter('ignore')
 PID = 'C11'
-SOURCES = ['SoupVerif/Properties/C11.lean', 'SoupVerif/Lemmas/Names.lean', 'SoupVerif/Model/Match.lean']
-RULE = ('one logical tree (mixed-case tag names, attribute names and values, a type attribute; inline SVG / MathML whose element '
+SOURCES = ['SoupVerif/Properties/C11.lean', 'SoupVerif/Lemmas/Names.lean', 'SoupVerif/Model/Match.lean',
+           'SoupVerif/Properties/C11Gen.lean', 'SoupVerif/Generated/PyStrings.lean', 'SoupVerif/Model/PyStrings.lean']
+RULE = ('one logical tree (mixed-case tag names, attribute names and values, a type attribute; made element names, attribute names '
+        'and values -- custom elements, data-* like and unknown words, in any case -- whose letters are dealt from a reshuffled '
+        'alphabet so that every ASCII letter is folded in both directions (selector upper / stored lower and the reverse; see '
+        'coverage letters_folded_*), some with a letter outside ASCII that has a Unicode case mapping (never folded: ASCII case); '
+        'inline SVG / MathML whose element '
         'and attribute names -- viewBox, preserveAspectRatio, definitionURL, ... -- html5lib stores with upper-case letters, '
         'xlink:* attributes) materialised by html.parser, lxml, html5lib, as XHTML (lxml-xml with the XHTML namespace) and as '
         'plain XML, and stored through the bs4 object API (plain HTML, namespace-aware HTML, XHTML, XML) with attribute names in '
@@ -22,7 +27,8 @@ RULE = ('one logical tree (mixed-case tag names, attribute names and values, a t
         'vocabulary, every name and value case-permuted (as given, lower, upper, random masks), with and without the i / s flags, '
         'with and without a namespace prefix on the attribute, plus HTML-only pseudo-classes. Checked on PY against an oracle '
         'that reads only the stored tree: in HTML documents [a] / tag selects exactly the elements with a stored name equal '
-        'to it up to ASCII case (so every case-variant selects the same elements), in XML/XHTML exactly the equal ones; [a=v] '
+        'to it up to ASCII case, A-Z only (so every ASCII-case variant selects the same elements, and what str.lower / upper / '
+        'swapcase make of a name with letters outside ASCII selects by the same rule), in XML/XHTML exactly the equal ones; [a=v] '
         'selects exactly the elements whose stored value equals v (case-insensitively iff a is "type" or the i flag is given; s '
         'forces exact); [p|a] / [*|a] follow the same rule on the local name; HTML-only pseudo-classes select nothing in plain '
         'XML. And PY = Lean matcher model on the tree each parser / the API stored. Non-trivial = non-empty result.')
@@ -45,6 +51,81 @@ XMLNS_NS = 'http://www.w3.org/2000/xmlns/'
 NSMAP = {'xl': gen.XLINK}
 NS_OF_PREFIX = {'xlink': gen.XLINK, 'xmlns': XMLNS_NS}
 SELECT_ALL = [('select', [], 0)]
+ALPHABET = 'abcdefghijklmnopqrstuvwxyz'
+# names to which a parser gives a content model of its own (raw text, void, table parts, head / body / frameset switches,
+# ...): a made name that happens to spell one of them is drawn again, so that made elements are ordinary containers everywhere
+RESERVED = set(
+    'a abbr acronym address applet area article aside audio b base basefont bdi bdo bgsound big blink blockquote body br button '
+    'canvas caption center cite code col colgroup command data datalist dd del details dfn dialog dir div dl dt em embed fieldset '
+    'figcaption figure font footer form frame frameset h1 h2 h3 h4 h5 h6 head header hgroup hr html i iframe image img input ins '
+    'isindex kbd keygen label legend li link listing main map mark marquee math menu menuitem meta meter multicol nav nextid '
+    'nobr noembed noframes noscript object ol optgroup option output p param picture plaintext pre progress q rb rp rt rtc ruby '
+    's samp script search section select slot small source spacer span strike strong style sub summary sup svg table tbody td '
+    'template textarea tfoot th thead time title tr track tt u ul var video wbr xmp'.split())
+
+
+# letters outside ASCII that have a case mapping of their own -- some of them onto an ASCII letter: str.lower() takes the Kelvin
+# sign to 'k' and U+0130 to 'i' + U+0307, str.upper() takes U+017F to 'S', U+0131 to 'I' and U+00DF to 'SS'.  "ASCII case" leaves
+# every one of them alone: in no kind of document does a name match a spelling that differs in one of these
+NON_ASCII = '\u00e9\u00c9\u00f6\u00d6\u00df\u0131\u0130\u017f\u212a\u03c3\u03a3\u0434\u0414'
+
+
+def ascii_lower(s):
+    """ASCII case folding by the book (HTML: "ASCII lowercase"): A-Z -> a-z and nothing else."""
+    return ''.join(chr(ord(c) + 32) if 'A' <= c <= 'Z' else c for c in s)
+
+
+def ascii_upper(s):
+    return ''.join(chr(ord(c) - 32) if 'a' <= c <= 'z' else c for c in s)
+
+
+class Deck:
+    """Letters dealt from a shuffled alphabet that is shuffled again whenever it runs out: any 26 consecutive letters dealt
+    are the whole alphabet, so the names made from them use every ASCII letter about equally often, whatever the seed.
+    (The fixed vocabulary above spells its names with 25 of the 26 letters; a rule about "ASCII case" is about all of them.)"""
+
+    def __init__(self):
+        self.left = []
+
+    def letters(self, r, n):
+        out = []
+        for _ in range(n):
+            if not self.left:
+                self.left = r.sample(ALPHABET, 26)
+            out.append(self.left.pop())
+        return ''.join(out)
+
+    def word(self, r, lo=2, hi=5):
+        """A word as an author might spell it: lower, UPPER, Title or mixed case."""
+        w = self.letters(r, r.randint(lo, hi))
+        return r.choice([w, w, ascii_upper(w), w.title(), recase(r, w)])
+
+    def name(self, r):
+        """A made name (custom element, data-* like attribute, unknown word), valid in HTML, in XML and as a CSS identifier
+        without escapes: words joined by '-' or '_', or a word followed by a digit."""
+        while True:
+            form = r.random()
+            if form < 0.4:
+                n = self.word(r, 3, 6)
+            elif form < 0.8:
+                n = self.word(r, 1, 4) + '-' + self.word(r, 1, 5)
+            elif form < 0.9:
+                n = self.word(r, 2, 4) + '_' + self.word(r, 1, 3)
+            else:
+                n = self.word(r, 2, 4) + r.choice('0123456789')
+            if ascii_lower(n) in RESERVED or ascii_lower(n).startswith('xml'):
+                continue
+            if r.random() < 0.12:
+                i = r.randint(1, len(n))            # never first: HTML tag names start with an ASCII letter
+                n = n[:i] + r.choice(NON_ASCII) + n[i:]
+            return n
+
+
+class Decks:
+    """One deck each for element names, attribute names and attribute values (a fresh set per run: deterministic per seed)."""
+
+    def __init__(self):
+        self.tag, self.attr, self.value = Deck(), Deck(), Deck()
 
 
 def spelled(r, name):
@@ -62,23 +143,35 @@ def foreign_attrs(r, pool, lo=0, hi=2):
     return out
 
 
-def tree(r, depth=0):
+def value(r, decks):
+    """An attribute value: from the small vocabulary, or a made word (letters of the whole alphabet, any case)."""
+    return r.choice(AVALS) if r.random() < 0.7 else decks.value.word(r, 2, 5)
+
+
+def tree(r, decks, depth=0):
     attrs = []
     for a in r.sample(ANAMES, r.randint(0, 3)):
         if a.lower() not in [x[0].lower() for x in attrs]:
-            attrs.append((a, r.choice(AVALS)))
+            attrs.append((a, value(r, decks)))
+    if r.random() < 0.45:
+        # made attribute names: what an HTML parser stores in lower case whatever the author wrote, XML as written
+        for _ in range(r.randint(1, 2)):
+            a = decks.attr.name(r)
+            if a.lower() not in [x[0].lower() for x in attrs]:
+                attrs.append((a, value(r, decks)))
     kids = []
     if depth < 3:
         for _ in range(r.randint(0, 3)):
-            kids.append(tree(r, depth + 1) if r.random() < 0.7 else ('t', r.choice(['x', ' ', 'Abc'])))
-    name = r.choice(TAGS + ['input', 'INPUT'])
+            kids.append(tree(r, decks, depth + 1) if r.random() < 0.7 else ('t', r.choice(['x', ' ', 'Abc'])))
+    # the element's name: from the vocabulary, or a made one (custom element / unknown element)
+    name = r.choice(TAGS + ['input', 'INPUT']) if r.random() < 0.7 else decks.tag.name(r)
     if name.lower() == 'input':
         kids = []
     if depth < 2 and r.random() < 0.3:
         # inline SVG with mixed-case element names and mixed-case attribute names (html5lib keeps / restores them and puts
         # the elements in the SVG namespace, xlink:* attributes in the XLink namespace)
         inner = [('e', r.choice(FOREIGN), None, gen.SVG, foreign_attrs(r, SVG_ATTRS),
-                  [tree(r, 3)] if r.random() < 0.5 else [])
+                  [tree(r, decks, 3)] if r.random() < 0.5 else [])
                  for _ in range(r.randint(1, 3))]
         kids.append(('e', 'svg', None, gen.SVG, [('xmlns:xlink', gen.XLINK)] + foreign_attrs(r, SVG_ATTRS, 1, 2), inner))
     if depth < 2 and r.random() < 0.15:
@@ -89,7 +182,8 @@ def tree(r, depth=0):
 
 
 def recase(r, s):
-    return ''.join(c.swapcase() if c.isalpha() and r.random() < 0.5 else c for c in s)
+    """A random ASCII-case variant: every ASCII letter keeps or swaps its case, nothing else changes."""
+    return ''.join(c.swapcase() if c.isascii() and c.isalpha() and r.random() < 0.5 else c for c in s)
 
 
 def api_tree(r, t):
@@ -113,22 +207,33 @@ def api_tree(r, t):
 
 
 def case_variants(r, s):
-    """The name as given, all lower, all upper, and three random case masks (distinct, in that order)."""
-    out = [s, s.lower(), s.upper()] + [recase(r, s) for _ in range(3)]
+    """The name as given, all lower, all upper, and three random case masks (ASCII case; distinct, in that order); for a name
+    with letters outside ASCII also what str.lower / str.upper / str.swapcase make of it -- different names in every document."""
+    out = [s, ascii_lower(s), ascii_upper(s)] + [recase(r, s) for _ in range(3)]
+    if not s.isascii():
+        out += [s.lower(), s.upper(), s.swapcase()]
     return [v for i, v in enumerate(out) if v not in out[:i]]
 
 
 def stored(e, name, xml):
     for k, v in e.attrs.items():
-        if (str(k) == name) if xml else (str(k).lower() == name.lower()):
+        if (str(k) == name) if xml else (ascii_lower(str(k)) == ascii_lower(name)):
             return v if isinstance(v, str) else ' '.join(v)
     return None
 
 
-def pick(r, present, vocabulary, k):
-    """Up to k names that occur in the document plus one from the vocabulary (which may or may not occur)."""
+SCAFFOLD = {'html', 'head', 'body', 'root', 'xmlns'}
+
+
+def pick(r, present, vocabulary, k, made=0):
+    """Up to k names that occur in the document plus one from the vocabulary (which may or may not occur), plus up to
+    `made` of the names in the document that are neither in the vocabulary nor part of the document scaffold."""
     present = sorted(present)
     out = r.sample(present, min(k, len(present))) + [r.choice(vocabulary)]
+    if made:
+        known = {ascii_lower(v) for v in vocabulary} | SCAFFOLD
+        fresh = [p for p in present if ascii_lower(p) not in known]
+        out += r.sample(fresh, min(made, len(fresh)))
     return [v for i, v in enumerate(out) if v not in out[:i]]
 
 
@@ -140,7 +245,7 @@ def eval_rules(rng, state, label, soup, nsaware, plain_xml, base_case):
     n0 = len(state['bad'])
 
     def eq(a, b):
-        return a == b if xml else a.lower() == b.lower()
+        return a == b if xml else ascii_lower(a) == ascii_lower(b)
 
     def bad(rule, selector, ns=None, **kw):
         state['bad'].append({'rule': rule, 'document': label, 'selector': selector, **kw,
@@ -149,35 +254,49 @@ def eval_rules(rng, state, label, soup, nsaware, plain_xml, base_case):
     def sel(s, ns=None):
         return [id(e) for e in sv.select(s, soup, namespaces=ns)]
 
+    def folded(v, names):
+        """Coverage: the letters on which selector name `v` and a stored name it has to match differ in case (HTML)."""
+        for k in names:
+            if len(k) == len(v) and k != v and ascii_lower(k) == ascii_lower(v):
+                for a, b in zip(v, k):
+                    if a != b:
+                        state['fold_selector_upper' if 'A' <= a <= 'Z' else 'fold_stored_upper'].add(ascii_lower(a))
+
     state['checks'] += 1
     state['docs'][label] += 1
     try:
         # ---- tag names
-        for tag in pick(rng, {e.name for e in els if ':' not in e.name}, TAGS + FOREIGN + MATHML + ['svg', 'math'], 2):
+        for tag in pick(rng, {e.name for e in els if ':' not in e.name}, TAGS + FOREIGN + MATHML + ['svg', 'math'], 2, 2):
             base = sel(tag)
             for v in case_variants(rng, tag):
                 got = sel(v)
                 state['tag_variants'] += 1
-                if not xml and got != base:
+                if not xml:
+                    folded(v, {e.name for e in els})
+                state['non_ascii_name_variants'] += not v.isascii()
+                if not xml and got != base and ascii_lower(v) == ascii_lower(tag):
                     bad('HTML tag names fold', v, base_selector=tag)
                 if got != [id(e) for e in els if eq(e.name, v)]:
                     bad('tag name rule (fold in HTML, exact in XML/XHTML) against the stored names', v)
         # ---- attribute names, no namespace prefix in the selector: the whole stored key is compared
         keys = {str(k) for e in els for k in e.attrs}
         plain = {k for k in keys if ':' not in k}
-        for an in pick(rng, plain, ANAMES + SVG_ATTRS + MATH_ATTRS, 3):
+        for an in pick(rng, plain, ANAMES + SVG_ATTRS + MATH_ATTRS, 3, 2):
             base = sel(f'[{an}]')
             for v in case_variants(rng, an):
                 got = sel(f'[{v}]')
                 state['attr_variants'] += 1
-                if any(c.isupper() for k in keys if k.lower() == v.lower() for c in k) and not xml:
+                if not xml:
+                    folded(v, keys)
+                if any('A' <= c <= 'Z' for k in keys if ascii_lower(k) == ascii_lower(v) for c in k) and not xml:
                     state['attr_variants_on_stored_uppercase_html'] += 1
-                if not xml and got != base:
+                state['non_ascii_name_variants'] += not v.isascii()
+                if not xml and got != base and ascii_lower(v) == ascii_lower(an):
                     bad('HTML attribute names fold', f'[{v}]', base_selector=f'[{an}]')
                 if got != [id(e) for e in els if any(eq(str(k), v) for k in e.attrs)]:
                     bad('attribute name rule (fold in HTML, exact in XML/XHTML) against the stored names', f'[{v}]')
         # ---- attribute values
-        for an in pick(rng, plain, ANAMES + SVG_ATTRS, 2):
+        for an in pick(rng, plain, ANAMES + SVG_ATTRS, 2, 1):
             vals = sorted({x for e in els for x in [stored(e, an, False)] if x is not None and x.isalnum()})
             for av in pick(rng, vals, AVALS, 1):
                 av = rng.choice([av, recase(rng, av)])
@@ -186,7 +305,7 @@ def eval_rules(rng, state, label, soup, nsaware, plain_xml, base_case):
                     s = f'[{name_v}="{av}"{flag}]'
                     got = sel(s)
                     state['value_checks'] += 1
-                    insens = flag == ' i' or (flag == '' and name_v.lower() == 'type' and not xml)
+                    insens = flag == ' i' or (flag == '' and ascii_lower(name_v) == 'type' and not xml)
                     want = []
                     for e in els:
                         sval = stored(e, name_v, xml)
@@ -228,8 +347,12 @@ def corr_selectors(rng, soup):
     els = gen.elements(soup)
     keys = sorted({str(k) for e in els for k in e.attrs if ':' not in str(k)})
     names = sorted({e.name for e in els if ':' not in e.name})
-    tag = recase(rng, rng.choice(names)) if names and rng.random() < 0.5 else rng.choice(TAGS + FOREIGN + MATHML + ['svg'])
-    an = recase(rng, rng.choice(keys)) if keys and rng.random() < 0.6 else rng.choice(ANAMES + SVG_ATTRS + MATH_ATTRS)
+    def variant(name):
+        # an ASCII-case variant; of a name with letters outside ASCII sometimes what str.lower / upper / swapcase make of it
+        return recase(rng, name) if name.isascii() or rng.random() < 0.5 else rng.choice([name.lower(), name.upper(), name.swapcase()])
+
+    tag = variant(rng.choice(names)) if names and rng.random() < 0.5 else rng.choice(TAGS + FOREIGN + MATHML + ['svg'])
+    an = variant(rng.choice(keys)) if keys and rng.random() < 0.6 else rng.choice(ANAMES + SVG_ATTRS + MATH_ATTRS)
     an2 = rng.choice(ANAMES)
     av = rng.choice(AVALS)
     flag = rng.choice(['', '', ' i', ' s'])
@@ -246,8 +369,9 @@ API_KINDS = {'html': 'api:html (no namespaces)', 'html5': 'api:html5 (XHTML name
 def make_cases_factory(state):
     def make_cases(rng, n):
         cases = []
+        decks = Decks()
         while len(cases) < n:
-            top = [tree(rng) for _ in range(rng.randint(1, 2))]
+            top = [tree(rng, decks) for _ in range(rng.randint(1, 2))]
             # (1) the tree as markup through every parser
             variants = gen.parse_variants(top)
             for pname, soup in variants.items():
@@ -271,6 +395,7 @@ def run(chk):
     state = defaultdict(int)
     state['bad'] = []
     state['docs'] = Counter()
+    state['fold_selector_upper'], state['fold_stored_upper'] = set(), set()
     orig = chk.finish
 
     def finish(**kw):
@@ -278,7 +403,11 @@ def run(chk):
                              'rule_documents': dict(state['docs']),
                              'rule_selector_variants': {k: state[k] for k in ('tag_variants', 'attr_variants',
                                                                               'attr_variants_on_stored_uppercase_html',
-                                                                              'value_checks', 'ns_attr_variants')}})
+                                                                              'value_checks', 'ns_attr_variants',
+                                                                              'non_ascii_name_variants')},
+                             # letters on which a selector name and the stored HTML name it was checked against differ in case
+                             'letters_folded_selector_upper_vs_stored_lower': ''.join(sorted(state['fold_selector_upper'])),
+                             'letters_folded_selector_lower_vs_stored_upper': ''.join(sorted(state['fold_stored_upper']))})
         # report up to five, one per kind of document first
         seen, first, rest = set(), [], []
         for b in state['bad']:
